@@ -20,7 +20,9 @@ LEVEL_NOTE = 'Trusted: Lean kernel; correspondence of the link plan; e2e snapsho
 TECHNIQUE = 'Lean 4 proofs about the link plan (containment, depth arithmetic) + correspondence with the real function + sandbox snapshots with decoys'
 
 WORDS = ['default.target', 'multi-user.target', 'a.service', 'x y.target', '../up.target', '/abs.target', 'sub/dir.target', '..', '.', '""', 'é.target', 'foo.service',
-         'sub/dir/foo.service', './rel.service', '../escape.service', '../../escape2.service', '/abs/alias.service', 'a/../b.service', 'a/../../c.service', '/', 'x/', 'a//b.service', '%i.service', 'a\\x20b.service']
+         'sub/dir/foo.service', './rel.service', '../escape.service', '../../escape2.service', '/abs/alias.service', 'a/../b.service', 'a/../../c.service', '/', 'x/', 'a//b.service', '%i.service', 'a\\x20b.service',
+         # one word each: only blank, tab, newline and carriage return separate words
+         'night\u00a0shift.target', 'a\u3000b.target', 'x\u0085y.service', 'v\x0bt.target', 'f\x0cg.target', 'x\u00a0/etc', 'p\u2003q.service']
 SVC_FILES = ['a.service', 'web-1.service', 'tpl@.service', 'tpl@inst.service', 'x.y.service', 'my svc.service', 'a-pod.service', '@.service', 'é.service',
              'tpl@.service', 't.p@.service', 'tpl@a@b.service', 'tpl@v1.2.service', 'a.b@.service']
 DEFINST = [None, 'i1', 'inst x', '../../../../esc', 'a/b', '', '%i', 'v1.2', 'a.b.c', '.hid', 'x.service', 'dot.', 'a@b', '@', 'é']
